@@ -166,3 +166,98 @@ split.
   by rewrite -(determinant_ok e).
 - by rewrite map_mx1 mul1mx.
 Qed.
+
+(** ** positivity of the index: index = |det S| > 0 for stored bases *)
+From RNT.Refine Require Import OrderCanon DetBridge DetOrder.
+Local Open Scope ring_scope.
+
+(** [P] index_abs_det: for STORED bases a, b (outputs of [hnf_reduce] = [from_basis] on n x n rational
+    bases a0, b0) with b = S a for an integer matrix S, [index a b] returns det S, and det S > 0, i.e. the
+    index is |det S| and positive: a stored basis is a positive multiple of a square normal form
+    (lower triangular, positive diagonal), so its determinant is positive *)
+Theorem index_abs_det (n : nat) (a0 b0 a b : list (list Qc)) (S : 'M[Z]_n) :
+  (1 <= n)%coq_nat -> qshape n n a0 -> qshape n n b0 ->
+  hnf_reduce a0 = Done a -> hnf_reduce b0 = Done b ->
+  qmx n n b = map_mx q_of_Z S *m qmx n n a ->
+  (0 < \det S)%Z /\ order_index a b = Done (Z.abs (\det S)).
+Proof. exact (@order_index_abs_det n a0 b0 a b S). Qed.
+
+(** [P] the same with S a list matrix and b = S a written with [qmmul] (the vocabulary of [order_canonical]);
+    [qmx (qmmul n S a) = map_mx q_of_Z (zmx S) *m qmx a] is [DetOrder.qmx_qmmul] *)
+Theorem index_abs_det_list (n : nat) (Sl : list (list Z)) (a0 b0 a b : list (list Qc)) :
+  (1 <= n)%coq_nat -> qshape n n a0 -> qshape n n b0 ->
+  hnf_reduce a0 = Done a -> hnf_reduce b0 = Done b ->
+  MatZ.shape n n Sl -> b = qmmul n Sl a ->
+  (0 < \det (zmx n n Sl))%Z /\ order_index a b = Done (Z.abs (\det (zmx n n Sl))).
+Proof. exact (@order_index_abs_det_list n Sl a0 b0 a b). Qed.
+
+(** [P] the determinant of a stored basis is a positive rational: l^n * det = p with integers l, p > 0 *)
+Theorem stored_basis_det_pos (n : nat) (b r : list (list Qc)) :
+  (1 <= n)%coq_nat -> qshape n n b -> hnf_reduce b = Done r ->
+  exists l p : Z, [/\ (0 < l)%Z, (0 < p)%Z, length r = n, square r
+                    & q_of_Z l ^+ n * \det (qmx n n r) = q_of_Z p].
+Proof. exact (@stored_det n b r). Qed.
+
+(** non-vacuity: Z[i]-ish (stored) > Z + 3 Z i (stored), S = [[1 0] [-1 6]]... the stored forms of
+    a0 = [[1 0] [1/2 1/2]] and b0 = [[1 0] [0 3]] are themselves, b0 = S a0 with S = [[1 0] [-3 6]], index 6 *)
+Example index_abs_det_ex :
+  let a := [:: [:: qz 1; qz 0]; [:: qhalf; qhalf]] in
+  let b := [:: [:: qz 1; qz 0]; [:: qz 0; qz 3]] in
+  let Sl := [:: [:: 1; 0]; [:: -3; 6]]%Z in
+  [/\ qshape 2 2 a, qshape 2 2 b & MatZ.shape 2 2 Sl] /\
+  [/\ Base.omap (List.map (List.map this)) (hnf_reduce a) = Done (List.map (List.map this) a),
+      Base.omap (List.map (List.map this)) (hnf_reduce b) = Done (List.map (List.map this) b),
+      List.map (List.map this) b = List.map (List.map this) (qmmul 2 Sl a)
+    & order_index a b = Done 6%Z].
+Proof.
+split; last by split; vm_compute.
+by split; split=> //; repeat constructor.
+Qed.
+
+(** ** the stored form keeps the determinant up to sign; the power-basis order has discriminant disc f *)
+From RNT.Refine Require Import DetSinglyGen.
+
+(** [P] hnf_reduce_det: the stored basis has the determinant of the given basis up to a sign s = +-1
+    (the change of basis is unimodular); by [stored_basis_det_pos] the sign makes it positive *)
+Theorem hnf_reduce_det (n : nat) (b r : list (list Qc)) :
+  (1 <= n)%coq_nat -> qshape n n b -> hnf_reduce b = Done r ->
+  exists s : Z, (s = 1%Z \/ s = (-1)%Z) /\ \det (qmx n n r) = q_of_Z s * \det (qmx n n b).
+Proof. exact (@DetSinglyGen.hnf_reduce_det n b r). Qed.
+
+(** [P] singly_gen_disc: for a monic minimal polynomial f of degree n >= 2 and its root theta
+    ([Algebraic::new], expr = x), the order Z[theta] returned by [singly_gen] has discriminant disc f:
+    whenever [discriminant_with_min_poly] returns d, d is the value [discf] of disc(min_poly); the rows
+    built by [singly_gen] are the unit vectors ([DetSinglyGenA.singly_gen_power_basis]), so the stored basis has
+    determinant 1 *)
+Theorem singly_gen_disc (m : mode) (f : list Z) (n : nat) (discf : Z) (o : list (list Qc)) (d : Z) :
+  length f = n.+1 -> (2 <= n)%coq_nat -> List.nth n f 0%Z = 1%Z ->
+  singly_gen f (alg_new f) = Done o -> order_discriminant m discf o f = Done d ->
+  d = discf.
+Proof. exact (@DetSinglyGen.singly_gen_disc m f n discf o d). Qed.
+
+(** [P] ... and it does return (the usize product 2 * (deg - 1) does not overflow) *)
+Theorem singly_gen_disc_returns (m : mode) (f : list Z) (n : nat) (discf : Z) (o : list (list Qc)) :
+  length f = n.+1 -> (2 <= n)%coq_nat -> List.nth n f 0%Z = 1%Z -> (2 * Z.of_nat n < two64)%Z ->
+  singly_gen f (alg_new f) = Done o -> order_discriminant m discf o f = Done discf.
+Proof. exact (@DetSinglyGen.singly_gen_disc_returns m f n discf o). Qed.
+
+(** non-vacuity: f = x^3 - x^2 - 2x - 8 (Dedekind's cubic, disc f = -2012 = 4 * (-503)), theta its root *)
+Example singly_gen_disc_ex :
+  let f := [:: -8; -2; -1; 1]%Z in
+  [/\ List.nth 3 f 0%Z = 1%Z,
+      Base.omap (List.map (List.map this)) (singly_gen f (alg_new f))
+        = Done [:: [:: 1 # 1; 0 # 1; 0 # 1]; [:: 0 # 1; 1 # 1; 0 # 1]; [:: 0 # 1; 0 # 1; 1 # 1]]%Q
+    & (do o <- singly_gen f (alg_new f); order_discriminant Checked (-2012) o f) = Done (-2012)%Z].
+Proof. by split; vm_compute. Qed.
+
+(** [P] from_basis_returns_iff: on an n x n rational basis, [from_basis] (= [hnf_reduce]) returns a stored
+    basis exactly when the basis is non-singular (otherwise the normal form has fewer than n rows and the
+    read-back loop panics): totality of [from_basis] on full-rank input, and only there *)
+Theorem from_basis_returns_iff (n : nat) (b : list (list Qc)) :
+  (1 <= n)%coq_nat -> qshape n n b ->
+  ((exists r, from_basis b = Done r) <-> \det (qmx n n b) != 0).
+Proof. exact (@hnf_reduce_returns_iff n b). Qed.
+
+Example from_basis_singular_ex :
+  from_basis [:: [:: qz 1; qz 2]; [:: qz 2; qz 4]] = Panic PIndex.
+Proof. by vm_compute. Qed.
